@@ -29,7 +29,7 @@ use std::time::Duration;
 use rustybgp_packet::{self as packet, Family, bgp};
 use rustybgp_table as table;
 
-use crate::bmp::verif_c18_bmp::Consumer;
+use crate::bmp::verif_c18_bmp::{Consumer, Wire};
 use crate::table_manager::{
     BgpEvent, PeerDownData, PeerUpData, Subscription, TableManager, verif_sched,
 };
@@ -606,6 +606,8 @@ fn run_case(line: &str) -> Option<String> {
             let mut fwd: Vec<Term> = Vec::new();
             let mut hist: Vec<(Vec<Term>, Vec<Term>)> = vec![(Vec::new(), Vec::new()); uni.len()];
             let mut consumer = Consumer::new();
+            // the BMP connection of this subscriber: opened at the first PeerUp/PeerDown it has to handle
+            let mut wire: Option<Wire> = None;
             let mut seen_eos = false;
             while let Ok(ev) = rec.sub.rx.try_recv() {
                 match ev {
@@ -641,8 +643,9 @@ fn run_case(line: &str) -> Option<String> {
                         Some(p) => {
                             ctl.push(Term::tag("up", vec![Term::nat(p as u64)]));
                             if !rec.want || seen_eos {
-                                consumer.peer_up(d.peer_addr);
-                                fwd.push(Term::tag("up", vec![Term::nat(p as u64)]));
+                                if !wire.get_or_insert_with(Wire::new).peer_up(d) {
+                                    fwd.push(Term::atom("io-error"));
+                                }
                             }
                         }
                         None => extra += 1,
@@ -656,8 +659,8 @@ fn run_case(line: &str) -> Option<String> {
                                     hist[i].1.push(Term::atom("d"));
                                 }
                             }
-                            if (!rec.want || seen_eos) && consumer.peer_down(d.peer_addr) {
-                                fwd.push(Term::tag("down", vec![Term::nat(p as u64)]));
+                            if (!rec.want || seen_eos) && !wire.get_or_insert_with(Wire::new).peer_down(d) {
+                                fwd.push(Term::atom("io-error"));
                             }
                         }
                         None => extra += 1,
@@ -668,6 +671,25 @@ fn run_case(line: &str) -> Option<String> {
                     }
                     // Loc-RIB / Adj-RIB-Out / EOR events are not C18's subject
                     _ => {}
+                }
+            }
+            // what was actually written on the BMP connection
+            if let Some(w) = wire.take() {
+                match w.finish() {
+                    Some(msgs) => {
+                        for (ty, addr) in msgs {
+                            let name = match ty {
+                                3 => "up",
+                                2 => "down",
+                                _ => "other",
+                            };
+                            match peer_of(&addr) {
+                                Some(p) => fwd.push(Term::tag(name, vec![Term::nat(p as u64)])),
+                                None => extra += 1,
+                            }
+                        }
+                    }
+                    None => fwd.push(Term::atom("bad-framing")),
                 }
             }
             let mut snap: Vec<(Option<u64>, Option<u64>)> = vec![(None, None); uni.len()];
